@@ -4,6 +4,7 @@ import (
 	"fmt"
 	"go/token"
 	"go/types"
+	"sort"
 	"strings"
 
 	"golang.org/x/tools/go/ssa"
@@ -302,24 +303,59 @@ func secondViewThroughCallee(c *Check, fn *ssa.Function, fld *types.Var, load ss
 func c18r4(c *Check) {
 	t := computeTaint(c.P)
 	for _, fn := range c.P.Funcs {
-		// int parameters
+		// caller-supplied integers: int parameters, and int variables of the enclosing function that a
+		// closure captures (the index of a Del* function used inside a `modify` closure)
+		type idxVar struct {
+			name string
+			is   func(v ssa.Value) bool
+		}
+		var cands []idxVar
 		for _, par := range fn.Params {
-			if b, ok := par.Type().Underlying().(*types.Basic); !ok || b.Kind() != types.Int {
+			par := par
+			if b, ok := par.Type().Underlying().(*types.Basic); ok && b.Kind() == types.Int {
+				cands = append(cands, idxVar{par.Name(), func(v ssa.Value) bool { return v == ssa.Value(par) }})
+			}
+		}
+		for _, fv := range fn.FreeVars {
+			fv := fv
+			pt, ok := fv.Type().(*types.Pointer)
+			if !ok {
 				continue
+			}
+			if b, ok := pt.Elem().Underlying().(*types.Basic); ok && b.Kind() == types.Int {
+				cands = append(cands, idxVar{fv.Name(), func(v ssa.Value) bool {
+					u, ok := v.(*ssa.UnOp)
+					return ok && u.Op == token.MUL && u.X == ssa.Value(fv)
+				}})
+			}
+		}
+		for _, cand := range cands {
+			var derived func(v ssa.Value) bool
+			derived = func(v ssa.Value) bool {
+				if v == nil {
+					return false
+				}
+				if cand.is(v) {
+					return true
+				}
+				if bo, ok := v.(*ssa.BinOp); ok {
+					return derived(bo.X) || derived(bo.Y)
+				}
+				return false
 			}
 			var uses []ssa.Instruction
 			allInstrs(fn, func(in ssa.Instruction) {
-				if ia, ok := in.(*ssa.IndexAddr); ok && derivedArith(ia.Index, par) && (t.is(ia.X) || t.shape(ia.X).tainted) {
+				if ia, ok := in.(*ssa.IndexAddr); ok && derived(ia.Index) && (t.is(ia.X) || t.shape(ia.X).tainted) {
 					uses = append(uses, ia)
 				}
-				if sl, ok := in.(*ssa.Slice); ok && t.is(sl.X) && (sl.High != nil && derivedArith(sl.High, par) || sl.Low != nil && derivedArith(sl.Low, par)) {
+				if sl, ok := in.(*ssa.Slice); ok && t.is(sl.X) && (sl.High != nil && derived(sl.High) || sl.Low != nil && derived(sl.Low)) {
 					uses = append(uses, sl)
 				}
 			})
 			if len(uses) == 0 {
 				continue
 			}
-			key := fmt.Sprintf("%s index %s", FuncName(fn), par.Name())
+			key := fmt.Sprintf("%s index %s", FuncName(EnclosingDecl(fn)), cand.name)
 			// find guard: if par >= len(x) (x tainted) -> true edge returns non-nil error without Store
 			var guard *ssa.If
 			allInstrs(fn, func(in ssa.Instruction) {
@@ -339,7 +375,7 @@ func c18r4(c *Check) {
 					b, ok := call.Call.Value.(*ssa.Builtin)
 					return ok && b.Name() == "len" && (t.is(call.Call.Args[0]) || t.shape(call.Call.Args[0]).tainted)
 				}
-				if (bo.Op == token.GEQ && bo.X == par && isLen(bo.Y)) || (bo.Op == token.LEQ && bo.Y == par && isLen(bo.X)) {
+				if (bo.Op == token.GEQ && cand.is(bo.X) && isLen(bo.Y)) || (bo.Op == token.LEQ && cand.is(bo.Y) && isLen(bo.X)) {
 					guard = ifi
 				}
 			})
@@ -370,6 +406,45 @@ func c18r4(c *Check) {
 				if pa.End == "return" && len(pa.Ret) > 0 && isNilConst(pa.Ret[len(pa.Ret)-1]) {
 					okAll = false
 					c.Violate(key, c.At(pa.Last), "the out-of-range edge returns a nil error")
+				}
+			}
+			// a closure that edits the copy on behalf of a caller: the caller must not publish when the closure reports an error
+			if okAll && fn.Parent() != nil {
+				for _, e := range c.P.CG().In[fn] {
+					if e.Kind == EdgeRef {
+						continue
+					}
+					site, ok := e.Site.(*ssa.Call)
+					if !ok {
+						continue
+					}
+					allInstrs(e.Caller, func(in ssa.Instruction) {
+						if _, _, ok := publishedAccess(in, atomicStore); !ok {
+							return
+						}
+						gated := false
+						for _, b := range e.Caller.Blocks {
+							ifi, ok := b.Instrs[len(b.Instrs)-1].(*ssa.If)
+							if !ok {
+								continue
+							}
+							ev, errEdge, ok := errTest(ifi.Cond)
+							if !ok || (ev != ssa.Value(site) && !derivedFrom(ev, site, map[ssa.Value]bool{})) {
+								continue
+							}
+							si := 1
+							if !errEdge {
+								si = 0
+							}
+							if edgeDominates(b, b.Succs[si], in.Block()) {
+								gated = true
+							}
+						}
+						if !gated {
+							okAll = false
+							c.Violate(key, c.At(in), "the function that applies the edit publishes the table even when the edit reported an out-of-range index")
+						}
+					})
 				}
 			}
 			if okAll {
@@ -516,14 +591,37 @@ func c18r5(c *Check) {
 			}
 		})
 	}
+	// a send site is identified by the route's Dispatch method(s) that execute it (the site itself
+	// may sit in a helper shared by several route types)
+	var dispatchImpls []*ssa.Function
 	for _, fn := range c.P.Funcs {
+		if fn.Name() == "Dispatch" && fn.Signature.Recv() != nil && fnPkg(fn) != nil && fnPkg(fn).Path() == modPath+"/route" {
+			dispatchImpls = append(dispatchImpls, fn)
+		}
+	}
+	for _, fn := range c.P.Funcs {
+		fn := fn
 		allInstrs(fn, func(in ssa.Instruction) {
 			if s, ok := in.(*ssa.Send); ok && isFieldLoad(s.Chan, inField) {
-				key := fmt.Sprintf("%s bare send Destination.In", FuncName(fn))
-				if canReturn {
-					c.Violate(key, c.At(in), "unconditional send to the destination's relay loop, which exits on Shutdown: a dispatcher still holding a snapshot that lists the destination blocks forever after DelRoute/DelDestination, skipping every later route of its snapshot")
-				} else {
-					c.Hold(key, c.At(in), "receiver loop never returns")
+				var owners []string
+				for _, d := range dispatchImpls {
+					for _, g := range samePkgCallees(c.P, d) {
+						if g == fn {
+							owners = append(owners, FuncName(d))
+						}
+					}
+				}
+				if len(owners) == 0 {
+					owners = []string{FuncName(fn)}
+				}
+				sort.Strings(owners)
+				for _, o := range owners {
+					key := fmt.Sprintf("%s bare send Destination.In", o)
+					if canReturn {
+						c.Violate(key, c.At(in), "unconditional send to the destination's relay loop, which exits on Shutdown: a dispatcher still holding a snapshot that lists the destination blocks forever after DelRoute/DelDestination, skipping every later route of its snapshot")
+					} else {
+						c.Hold(key, c.At(in), "receiver loop never returns")
+					}
 				}
 			}
 		})
